@@ -421,7 +421,11 @@ Prepare(text) ==
        THEN [ok |-> FALSE, why |-> "top-level forms are not (use-modules ...) (let* ...)", forms |-> 2]
   ELSE LET r == Eval(rd.data[2], <<>>, [file |-> NoFile], 0)
            scans == SelectSeq(r.fx, LAMBDA e : e.e = "scan")
-       IN [ok |-> TRUE, data |-> rd.data, v |-> r.v, fx |-> r.fx, scans |-> scans, forms |-> 2]
+           \* the bindings alone (for classifying the resources they create)
+           bs == IF Len(rd.data[2].list) >= 2 /\ IsList(rd.data[2].list[2]) THEN rd.data[2].list[2].list ELSE <<>>
+           b == EvalLetStar(bs, 1, <<>>, [file |-> NoFile], 0)
+       IN [ok |-> TRUE, data |-> rd.data, v |-> r.v, fx |-> r.fx, scans |-> scans, forms |-> 2,
+           env |-> IF b.bad THEN <<>> ELSE b.env]
 
 \* one policy call on one file: [v, fx]
 RunPolicy(prep, file) ==
